@@ -126,6 +126,7 @@ import (
 	"encoding/json"
 	"fmt"
 	"math"
+	"math/big"
 	"math/rand/v2"
 	"runtime/debug"
 	"strconv"
@@ -308,9 +309,20 @@ func c09SeedBytes(seed uint64, n int) []byte {
 
 var c09SkCache = map[string]crypto.PrivateKey{}
 
+// a key spec is "<base>" or "<base>@<route>": base names the key VALUE ("nil" | "id" | "bls.<seed>" | "nbls.<seed>"
+// (the negation r - sk of bls.<seed>) | "p256.<seed>" | "k1.<seed>"), route the constructor the OBJECT comes from
+// (c09Priv / c09Pub).  Every route yields the same key value as the base.
+func c09Base(spec string) (string, string) {
+	if i := strings.IndexByte(spec, '@'); i >= 0 {
+		return spec[:i], spec[i+1:]
+	}
+	return spec, ""
+}
+
 func c09KeyAlgo(spec string) int {
+	spec, _ = c09Base(spec)
 	switch {
-	case spec == "id" || strings.HasPrefix(spec, "bls."):
+	case spec == "id" || strings.HasPrefix(spec, "bls.") || strings.HasPrefix(spec, "nbls."):
 		return 1
 	case strings.HasPrefix(spec, "p256."):
 		return 2
@@ -320,44 +332,123 @@ func c09KeyAlgo(spec string) int {
 	return 0
 }
 
+// the identity BLS public key (through any route)
+func c09IsID(spec string) bool { b, _ := c09Base(spec); return b == "id" }
+
+// a BLS key whose private key the harness has (through any route)
+func c09IsGen(spec string) bool {
+	b, _ := c09Base(spec)
+	return strings.HasPrefix(b, "bls.") || strings.HasPrefix(b, "nbls.")
+}
+
+func c09SameKey(a, b string) bool { x, _ := c09Base(a); y, _ := c09Base(b); return x == y }
+
+var c09BlsR, _ = new(big.Int).SetString("73eda753299d7d483339d80809a1d80553bda402fffe5bfeffffffff00000001", 16)
+
 // key specs: "nil" | "bls.<seed>" | "p256.<seed>" | "k1.<seed>" (GeneratePrivateKey on 32 bytes derived
-// from the seed); public keys also "id" (IdentityBLSPublicKey)
+// from the seed) | "nbls.<seed>" (DecodePrivateKey of r - sk); public keys also "id" (IdentityBLSPublicKey).
+// private-key routes: "@dec" (DecodePrivateKey of the encoding), "@agg" (AggregateBLSPrivateKeys of the key alone)
 func c09Priv(spec string) (crypto.PrivateKey, error) {
 	if spec == "nil" {
 		return nil, nil
 	}
-	if sk, ok := c09SkCache[spec]; ok {
+	base, route := c09Base(spec)
+	sk, ok := c09SkCache[base]
+	if !ok {
+		a := c09KeyAlgo(base)
+		i := strings.IndexByte(base, '.')
+		if a == 0 || base == "id" || i < 0 {
+			return nil, fmt.Errorf("bad private key spec %q", spec)
+		}
+		seed, err := strconv.ParseUint(base[i+1:], 10, 64)
+		if err != nil {
+			return nil, err
+		}
+		if strings.HasPrefix(base, "nbls.") {
+			pos, err := c09Priv(base[1:])
+			if err != nil {
+				return nil, err
+			}
+			neg := new(big.Int).Sub(c09BlsR, new(big.Int).SetBytes(pos.Encode()))
+			sk, err = crypto.DecodePrivateKey(crypto.BLSBLS12381, neg.FillBytes(make([]byte, 32)))
+			if err != nil {
+				return nil, err
+			}
+		} else {
+			sk, err = crypto.GeneratePrivateKey(crypto.SigningAlgorithm(a), c09SeedBytes(seed, 32))
+			if err != nil {
+				return nil, err
+			}
+		}
+		c09SkCache[base] = sk
+	}
+	switch route {
+	case "":
 		return sk, nil
+	case "dec":
+		return crypto.DecodePrivateKey(sk.Algorithm(), sk.Encode())
+	case "agg":
+		return crypto.AggregateBLSPrivateKeys([]crypto.PrivateKey{sk})
 	}
-	a := c09KeyAlgo(spec)
-	i := strings.IndexByte(spec, '.')
-	if a == 0 || spec == "id" || i < 0 {
-		return nil, fmt.Errorf("bad private key spec %q", spec)
-	}
-	seed, err := strconv.ParseUint(spec[i+1:], 10, 64)
-	if err != nil {
-		return nil, err
-	}
-	sk, err := crypto.GeneratePrivateKey(crypto.SigningAlgorithm(a), c09SeedBytes(seed, 32))
-	if err != nil {
-		return nil, err
-	}
-	c09SkCache[spec] = sk
-	return sk, nil
+	return nil, fmt.Errorf("bad private key route in %q", spec)
 }
 
+// public-key routes (a FRESH object every time, nothing cached in it yet): "" (PublicKey() of the private key, resp.
+// IdentityBLSPublicKey), "@dec" (DecodePublicKey of Encode), "@decc" (DecodePublicKeyCompressed of EncodeCompressed),
+// "@agg" (AggregateBLSPublicKeys of the key alone), "@aggid" (of the key and the identity key), "@rem" (RemoveBLSPublicKeys
+// of another key from the aggregate of both); for "id" also "@cancel" (aggregate of a key and its negation)
 func c09Pub(spec string) (crypto.PublicKey, error) {
 	if spec == "nil" {
 		return nil, nil
 	}
-	if spec == "id" {
-		return crypto.IdentityBLSPublicKey(), nil
+	base, route := c09Base(spec)
+	var pk crypto.PublicKey
+	if base == "id" {
+		pk = crypto.IdentityBLSPublicKey()
+	} else {
+		sk, err := c09Priv(base)
+		if err != nil {
+			return nil, err
+		}
+		pk = sk.PublicKey()
 	}
-	sk, err := c09Priv(spec)
-	if err != nil {
-		return nil, err
+	other := func() (crypto.PublicKey, error) { return c09Pub("bls.4242") }
+	switch route {
+	case "":
+		return pk, nil
+	case "dec":
+		return crypto.DecodePublicKey(pk.Algorithm(), pk.Encode())
+	case "decc":
+		return crypto.DecodePublicKeyCompressed(pk.Algorithm(), pk.EncodeCompressed())
+	case "agg":
+		return crypto.AggregateBLSPublicKeys([]crypto.PublicKey{pk})
+	case "aggid":
+		return crypto.AggregateBLSPublicKeys([]crypto.PublicKey{crypto.IdentityBLSPublicKey(), pk})
+	case "rem":
+		o, err := other()
+		if err != nil {
+			return nil, err
+		}
+		agg, err := crypto.AggregateBLSPublicKeys([]crypto.PublicKey{o, pk})
+		if err != nil {
+			return nil, err
+		}
+		return crypto.RemoveBLSPublicKeys(agg, []crypto.PublicKey{o})
+	case "cancel":
+		if base != "id" {
+			break
+		}
+		a, err := c09Pub("bls.4243")
+		if err != nil {
+			return nil, err
+		}
+		b, err := c09Pub("nbls.4243")
+		if err != nil {
+			return nil, err
+		}
+		return crypto.AggregateBLSPublicKeys([]crypto.PublicKey{a, b})
 	}
-	return sk.PublicKey(), nil
+	return nil, fmt.Errorf("bad public key route in %q", spec)
 }
 
 const c09Tag = "c09-tag"
@@ -417,7 +508,8 @@ func c09Genuine(keyspec string, msg []byte, hspec string) ([]byte, error) {
 			return append([]byte{}, s...), nil
 		}
 	}
-	sk, err := c09Priv(keyspec)
+	kb, _ := c09Base(keyspec) // the key value signs; the route of a public-key spec has no private counterpart
+	sk, err := c09Priv(kb)
 	if err != nil || sk == nil {
 		return nil, fmt.Errorf("no key for a genuine signature: %q %v", keyspec, err)
 	}
@@ -685,8 +777,8 @@ func init() {
 		PropCheck: "prop_bad_ids",
 		Gen:       c09Gen,
 		Run:       c09Run,
-		Rule:      "hostile stream: every exported function taking byte strings, lengths, indices or lists is called under recover() with nil / empty / one-short / exact / one-long / 64 KiB byte strings, negative / zero / boundary / huge integers, undefined enum values, mismatched and holed lists, non-BLS and nil keys, and every DKG handler with every tag x length x origin at every protocol phase; one call per case; a case is non-trivial when the call was made; distinct by the JSON input",
-		Shard:     400,
+		Rule:      "hostile stream: every exported function taking byte strings, lengths, indices or lists is called under recover() with nil / empty / one-short / exact / one-long / 64 KiB byte strings, negative / zero / boundary / huge integers, undefined enum values, mismatched and holed lists, non-BLS and nil keys, and every DKG handler with every tag x length x origin at every protocol phase; audit families (c09x.go): key OBJECTS from every constructor (PublicKey(), DecodePublicKey, DecodePublicKeyCompressed, aggregation alone / with the identity, removal, cancelling pair; DecodePrivateKey, AggregateBLSPrivateKeys) used in every API that takes a key, Equals between all kinds; cancelling / doubled keys and signatures in every aggregate and multi-signature API; several defects in one call (signature length x hasher x key kind products, random mixtures of bad keys / signatures / hashers / messages / signers / parameters); integers valid only after narrowing to 8, 16, 32 bits (256+k, -256+k, 2^16+k, +-2^32+k, MinInt64+k) through every index / size / threshold argument incl. DKG origins per phase; lists of 255, 256, 257, 300 entries and groups of 254; inspector histories (TrustedAdd / VerifyAndAdd / VerifyShare / ThresholdSignature preludes incl. failed calls and repeated ThresholdSignature, object built by either constructor), VerifyThresholdSignature, SignShare, NewExpandMsgXOFKMAC128 with hostile tags, Hash.Equal / Hex / String, Signature.String / Bytes, EncodePermutation, PRG read histories; DKG message SEQUENCES with the dealers' real vectors, shares and complaint answers: every order of up to three of eight message kinds followed by the rest of the run, and random sequences (a panic anywhere in the sequence is reported); one observed call per case; a case is non-trivial when the call was made; distinct by the JSON input",
+		Shard:     720,
 	})
 }
 
@@ -928,11 +1020,11 @@ func init() {
 				return nil, false, nil
 			}
 			sks := ks
-			if ks == "id" {
+			if c09IsID(ks) {
 				sks = "bls.1"
 			}
 			if s, err := c09Genuine(sks, data, in.H); err == nil {
-				genuine = ks != "id"
+				genuine = !c09IsID(ks)
 				return s, true, nil
 			}
 			hs := "xof"
@@ -957,12 +1049,12 @@ func init() {
 		r.F("data", int64(len(data)))
 		r.hasherFacts(hp, h)
 		r.F(sp+".genuine", c09b2i(genuine && len(sig) == exact))
-		r.F("pk.isIdentity", c09b2i(ks == "id"))
+		r.F("pk.isIdentity", c09b2i(c09IsID(ks)))
 		r.E(sp, int64(len(sig)))
 		r.E("data", int64(len(data)))
 		r.E(hp, c09b2i(h != nil))
 		if algo == 1 {
-			r.E("pk.isIdentity", c09b2i(ks == "id"))
+			r.E("pk.isIdentity", c09b2i(c09IsID(ks)))
 		}
 		r.call(func() string { return c09BoolClass(pk.Verify(sig, data, h)) })
 		return nil
@@ -1000,11 +1092,12 @@ func init() {
 				return nil, false, nil
 			}
 			sks := ks
-			if !strings.HasPrefix(ks, "bls.") {
+			if !c09IsGen(ks) {
 				sks = "bls.1"
 			} else {
 				genuine = true
 			}
+			sks, _ = c09Base(sks)
 			sk, err := c09Priv(sks)
 			if err != nil {
 				return nil, true, err
@@ -1016,7 +1109,7 @@ func init() {
 			return err
 		}
 		r.F("pk.nonbls", c09b2i(c09KeyAlgo(ks) != 1))
-		r.F("pk.isIdentity", c09b2i(ks == "id"))
+		r.F("pk.isIdentity", c09b2i(c09IsID(ks)))
 		r.F("s", int64(len(s)))
 		r.F("s.genuine", c09b2i(genuine && len(s) == 48))
 		r.nilIface = ks == "nil"
@@ -1044,11 +1137,11 @@ func init() {
 
 // resolver of signature atoms in a list context:
 //
-//	"S<seed>"  genuine signature of bls.<seed> on msg under "xof"
+//	"S<seed>"  genuine signature of bls.<seed> on msg under "xof";  "N<seed>" the same by nbls.<seed> (its inverse)
 //	"I<i>"     genuine signature of the i-th key of keys (bls.1 when that key is not a generated BLS key)
 func c09SigResolver(msg func(i int) []byte, keys []string) c09Resolver {
 	return func(a string) ([]byte, bool, error) {
-		if len(a) < 2 || (a[0] != 'S' && a[0] != 'I') {
+		if len(a) < 2 || (a[0] != 'S' && a[0] != 'I' && a[0] != 'N') {
 			return nil, false, nil
 		}
 		n, err := strconv.ParseUint(a[1:], 10, 64)
@@ -1056,10 +1149,13 @@ func c09SigResolver(msg func(i int) []byte, keys []string) c09Resolver {
 			return nil, false, nil
 		}
 		ks := fmt.Sprintf("bls.%d", n)
+		if a[0] == 'N' { // signature of the negated key: the inverse of S<seed>
+			ks = fmt.Sprintf("nbls.%d", n)
+		}
 		mi := 0
 		if a[0] == 'I' {
 			ks = "bls.1"
-			if int(n) < len(keys) && strings.HasPrefix(keys[n], "bls.") {
+			if int(n) < len(keys) && c09IsGen(keys[n]) {
 				ks = keys[n]
 			}
 			mi = int(n)
@@ -1078,10 +1174,10 @@ func c09AggResolver(msg func(i int) []byte, keys []string, genuine *bool) c09Res
 		var sigs []crypto.Signature
 		all := len(keys) > 0
 		for i, k := range keys {
-			if k == "id" {
+			if c09IsID(k) {
 				continue // the identity key contributes nothing
 			}
-			if !strings.HasPrefix(k, "bls.") {
+			if !c09IsGen(k) {
 				all = false
 				continue
 			}
@@ -1404,7 +1500,7 @@ func init() {
 				return nil, false, nil
 			}
 			sks := "bls.1"
-			if strings.HasPrefix(ks, "bls.") {
+			if c09IsGen(ks) {
 				sks, genuine = ks, true
 			}
 			s, err := c09Genuine(sks, data, "xof")
@@ -1418,7 +1514,7 @@ func init() {
 			return err
 		}
 		r.F("pk.nonbls", c09b2i(c09KeyAlgo(ks) != 1))
-		r.F("pk.isIdentity", c09b2i(ks == "id"))
+		r.F("pk.isIdentity", c09b2i(c09IsID(ks)))
 		r.F("proof", int64(len(proof)))
 		r.F("data", int64(len(data)))
 		r.hasherFacts("kmac", h)
@@ -1457,7 +1553,7 @@ func init() {
 			}
 			i := int(a[1] - '1')
 			sks := "bls.1"
-			if strings.HasPrefix(in.K[i], "bls.") {
+			if c09IsGen(in.K[i]) {
 				sks = in.K[i]
 			}
 			lastKey = sks
@@ -1477,8 +1573,8 @@ func init() {
 		g2 := lastKey != "" && lastKey == in.K[1]
 		r.F("pk1.nonbls", c09b2i(c09KeyAlgo(in.K[0]) != 1))
 		r.F("pk2.nonbls", c09b2i(c09KeyAlgo(in.K[1]) != 1))
-		r.F("pk1.isIdentity", c09b2i(in.K[0] == "id"))
-		r.F("pk2.isIdentity", c09b2i(in.K[1] == "id"))
+		r.F("pk1.isIdentity", c09b2i(c09IsID(in.K[0])))
+		r.F("pk2.isIdentity", c09b2i(c09IsID(in.K[1])))
 		r.F("proof1", int64(len(p1)))
 		r.F("proof2", int64(len(p2)))
 		r.F("proofs.genuine", c09b2i(g1 && g2 && len(p1) == 48 && len(p2) == 48))
@@ -1491,8 +1587,8 @@ func init() {
 		r.E("ok1:=pk1.(*pubKeyBLSBLS12381)", c09b2i(c09KeyAlgo(in.K[0]) == 1))
 		r.E("ok2:=pk2.(*pubKeyBLSBLS12381)", c09b2i(c09KeyAlgo(in.K[1]) == 1))
 		if c09KeyAlgo(in.K[0]) == 1 && c09KeyAlgo(in.K[1]) == 1 {
-			r.E("blsPk1.isIdentity", c09b2i(in.K[0] == "id"))
-			r.E("blsPk2.isIdentity", c09b2i(in.K[1] == "id"))
+			r.E("blsPk1.isIdentity", c09b2i(c09IsID(in.K[0])))
+			r.E("blsPk2.isIdentity", c09b2i(c09IsID(in.K[1])))
 		}
 		r.call(func() string { return c09BoolClass(crypto.SPOCKVerify(pk1, p1, pk2, p2)) })
 		return nil
@@ -1708,7 +1804,7 @@ func init() {
 				return err
 			}
 			items, _ := c09List(in.L)
-			match := my >= 0 && my < int64(len(items)) && items[my] == sks && sks != "nil"
+			match := my >= 0 && my < int64(len(items)) && c09SameKey(items[my], sks) && sks != "nil"
 			r.F("myIndex", my)
 			r.F("myPrivateKey.nonbls", c09b2i(c09KeyAlgo(sks) != 1))
 			r.F("myPrivateKey.match", c09b2i(match))
@@ -2066,6 +2162,15 @@ func init() {
 			}
 			prg = p
 		}
+		// l = earlier reads "R<n>" on the same generator (an empty buffer for n = 0)
+		for _, op := range in.L {
+			n, err := strconv.Atoi(strings.TrimPrefix(op, "R"))
+			if err != nil || !strings.HasPrefix(op, "R") || n < 0 || n > c09Max {
+				return fmt.Errorf("bad PRG prelude op %q", op)
+			}
+			prg.Read(make([]byte, n))
+			ctr += uint64(n)
+		}
 		meth := in.Ops[0]
 		r.api = "random.genericPRG." + meth
 		if meth == "Read" {
@@ -2074,6 +2179,9 @@ func init() {
 		r.skel = r.api
 		r.F("restored", c09b2i(restored))
 		r.FU("counter", ctr)
+		if len(in.L) > 0 {
+			r.F("prelude", int64(len(in.L)))
+		}
 		switch in.Tag {
 		case "finding":
 			r.F("finding.prg-counter-overflow", 1)
@@ -2234,10 +2342,57 @@ func c09Deal(n, t, j int, seed uint64) (*c09Dealt, error) {
 	return d, nil
 }
 
-func c09DkgApply(st crypto.DKGState, op c09DkgOp) (func() error, []byte, error) {
+// atoms of DKG messages that carry the real material of dealer j of the scenario (dealt from seed s+1+j, as the
+// "warm" deliveries): "DV<j>" its vector message, "DS<j>" its share message for this participant, "DA<j>.<c>" its
+// (right) complaint answer for complainer c, "DB<j>.<c>" a well-formed wrong answer
+func c09DkgResolver(d *c09Dkg, seed uint64) c09Resolver {
+	return func(a string) ([]byte, bool, error) {
+		if len(a) < 3 || a[0] != 'D' || !strings.ContainsRune("VSAB", rune(a[1])) {
+			return nil, false, nil
+		}
+		f := strings.Split(a[2:], ".")
+		j, err := strconv.Atoi(f[0])
+		if err != nil || j < 0 || j >= d.N {
+			return nil, false, nil
+		}
+		dl, err := c09Deal(d.N, d.T, j, seed+1+uint64(j))
+		if err != nil {
+			return nil, true, err
+		}
+		switch a[1] {
+		case 'V':
+			return append([]byte{}, dl.vec...), true, nil
+		case 'S':
+			if sh, ok := dl.shares[d.My]; ok {
+				return append([]byte{}, sh...), true, nil
+			}
+			return append([]byte{0}, c09SeedBytes(seed, 32)...), true, nil // the dealer sends itself nothing
+		}
+		if len(f) != 2 {
+			return nil, false, nil
+		}
+		c, err := strconv.Atoi(f[1])
+		if err != nil || c < 0 || c > 255 {
+			return nil, false, nil
+		}
+		ans := []byte{3, byte(c)}
+		if sh, ok := dl.shares[c]; ok {
+			ans = append(ans, sh[1:]...)
+		} else {
+			ans = append(ans, c09SeedBytes(seed+7, 32)...)
+			ans[2] &= 0x3f
+		}
+		if a[1] == 'B' {
+			ans[len(ans)-1] ^= 1
+		}
+		return ans, true, nil
+	}
+}
+
+func c09DkgApply(st crypto.DKGState, op c09DkgOp, res c09Resolver) (func() error, []byte, error) {
 	var msg []byte
 	if op.Op == "bcast" || op.Op == "priv" || op.Op == "start" {
-		b, err := c09Bytes(op.Msg, nil)
+		b, err := c09Bytes(op.Msg, res)
 		if err != nil {
 			return nil, nil, err
 		}
@@ -2352,15 +2507,16 @@ func init() {
 		if d.Phase == 4 {
 			_, _, _, _ = st.End()
 		}
+		dres := c09DkgResolver(d, in.S)
 		for _, op := range d.Pre {
-			f, _, err := c09DkgApply(st, op)
+			f, _, err := c09DkgApply(st, op, dres)
 			if err != nil {
 				return err
 			}
 			_ = f()
 		}
 		running := st.Running()
-		f, msg, err := c09DkgApply(st, d.Op)
+		f, msg, err := c09DkgApply(st, d.Op, dres)
 		if err != nil {
 			return err
 		}
@@ -2481,6 +2637,7 @@ func c09Gen(tier string, r *rand.Rand) []Case {
 	g.prg()
 	g.dkgCtors()
 	g.dkg()
+	g.audit()
 	g.probes()
 	return g.cs
 }
